@@ -129,7 +129,8 @@ def rich_data(r, t, depth=0):
     non-string mapping keys (int, float, bool), which those formats allow."""
     x = r.random()
     if depth >= 3 or x < 0.4:
-        return r.choice(["a", "xy", "", 0, 1, 2, 7, -3, 1.5, True, False, None, "line1\nline2", "é", "1", "true", "null", " padded "])
+        return r.choice(["a", "xy", "", 0, 1, 2, 7, -3, 1.5, True, False, None, "line1\nline2", "é", "1", "true", "null", " padded ",
+                         "a\n\nb\n", "long " + "word " * 24 + "end", "tab\there"])
     if x < 0.65:
         return [rich_data(r, t, depth + 1) for _ in range(r.randint(0, 3))]
     d = {}
